@@ -682,6 +682,9 @@ func (s *Storage) ClearUpstreamCache() {
 // ClientID or client IP address, and applies it to the filtering settings.
 // setts must not be nil.
 func (s *Storage) ApplyClientFiltering(id string, addr netip.Addr, setts *filtering.Settings) {
+	s.mu.Lock()
+	defer s.mu.Unlock()
+
 	c, ok := s.index.findByClientID(id)
 	if !ok {
 		c, ok = s.index.findByIP(addr)
